@@ -2,7 +2,9 @@
   Stevia.Proofs.GenASet — translator output for `array_set.rs` (`Stevia.GenA.*`, regenerated from the source on every
   run) = the model `Stevia.ASet.*` (whose `search` is the binary-search loop and whose `copyWithin` is the `ptr::copy`).
   A failing bounds check / out-of-range copy is `none` on the translated side and `Except.error` in the model;
-  the statements are unconditional equalities through `Except.toOption`.
+  the statements are equalities through `Except.toOption`, for every set whose length prefix does not exceed its slot
+  count (`len()` clamps the prefix to the slot count since the repair c509816; the model keeps the plain prefix and
+  every well-formed state has `len ≤ slots`).
 -/
 import Stevia.Generated.ASet
 import Stevia.Proofs.GenLemmas
@@ -19,12 +21,17 @@ def Idx.pair : Idx → Option Nat × Option Nat
 
 namespace GenA
 
-theorem len_eq (key : α → κ) (P : Nat) (m : ASet α) : len key P m = m.len := rfl
-theorem is_empty_eq (key : α → κ) (P : Nat) (m : ASet α) : is_empty key P m = m.isEmpty := by
-  show decide (m.len = 0) = (m.len == 0)
+theorem len_eq (key : α → κ) (P : Nat) (m : ASet α) (hle : m.len ≤ m.vals.length) : len key P m = m.len :=
+  Nat.min_eq_left hle
+theorem is_empty_eq (key : α → κ) (P : Nat) (m : ASet α) (hle : m.len ≤ m.vals.length) :
+    is_empty key P m = m.isEmpty := by
+  show decide (len key P m = 0) = (m.len == 0)
+  rw [len_eq key P m hle]
   by_cases h : m.len = 0 <;> simp [h]
-theorem is_full_eq (key : α → κ) (P : Nat) (m : ASet α) : is_full key P m = m.isFull P := by
-  show decide (m.len = m.vals.length ∨ ¬ (m.len + 1 ≤ P)) = (m.len == m.vals.length || decide (m.len ≥ P))
+theorem is_full_eq (key : α → κ) (P : Nat) (m : ASet α) (hle : m.len ≤ m.vals.length) :
+    is_full key P m = m.isFull P := by
+  show decide (len key P m = m.vals.length ∨ ¬ (m.len + 1 ≤ P)) = (m.len == m.vals.length || decide (m.len ≥ P))
+  rw [len_eq key P m hle]
   by_cases h1 : m.len = m.vals.length <;> by_cases h2 : m.len + 1 ≤ P <;> simp [h1, h2] <;> omega
 
 /-- The state `(early result, start, end, left by its condition)` of the binary-search loop after `n` iterations
@@ -104,11 +111,11 @@ theorem searchSt_spec (key : α → κ) (vals : List α) (x : κ) (n st e : Nat)
     · simp [hle, Except.toOption, Idx.pair]
 
 /-- `index`: the translated binary search is the model's, *and it never runs out of fuel* (`len + 1` iterations
-    suffice for an interval of `len` positions) — unconditionally. -/
-theorem index_eq (key : α → κ) (P : Nat) (m : ASet α) (x : α) :
+    suffice for an interval of `len` positions). -/
+theorem index_eq (key : α → κ) (P : Nat) (m : ASet α) (hle : m.len ≤ m.vals.length) (x : α) :
     index key P m x = (ASet.index key m (key x)).toOption.map Idx.pair := by
   unfold index ASet.index ASet.indexP
-  simp only [forIn, is_empty_eq, ASet.isEmpty, beq_iff_eq]
+  simp only [forIn, is_empty_eq key P m hle, len_eq key P m hle, ASet.isEmpty, beq_iff_eq]
   by_cases h0 : m.len = 0
   · simp [h0, Except.toOption, Except.map, Idx.pair]
   · simp only [h0, if_false]
@@ -157,10 +164,10 @@ theorem index_eq (key : α → κ) (P : Nat) (m : ASet α) (x : α) :
             · simp only [h1, h3, false_and, if_false]; rfl
       · simp only [hle, not_false_eq_true, if_true]; rfl
 
-theorem get_eq (key : α → κ) (P : Nat) (m : ASet α) (x : α) :
+theorem get_eq (key : α → κ) (P : Nat) (m : ASet α) (hle : m.len ≤ m.vals.length) (x : α) :
     get key P m x = (ASet.get key m (key x)).toOption := by
   unfold get ASet.get
-  simp only [index_eq]
+  simp only [index_eq key P m hle]
   cases hi : ASet.index key m (key x) with
   | error e => rfl
   | ok r =>
@@ -170,27 +177,27 @@ theorem get_eq (key : α → κ) (P : Nat) (m : ASet α) (x : α) :
       cases m.vals[i]? <;> rfl
     | absent i => rfl
 
-theorem contains_eq (key : α → κ) (P : Nat) (m : ASet α) (x : α) :
+theorem contains_eq (key : α → κ) (P : Nat) (m : ASet α) (hle : m.len ≤ m.vals.length) (x : α) :
     contains key P m x = (ASet.contains key m (key x)).toOption := by
   unfold contains ASet.contains
-  simp only [get_eq]
+  simp only [get_eq key P m hle]
   cases ASet.get key m (key x) <;> rfl
 
 /-- `get_mut` yields the place (the index of the slot); writing `y` through it is the model's `update`. -/
-theorem get_mut_eq (key : α → κ) (P : Nat) (m : ASet α) (x y : α) :
+theorem get_mut_eq (key : α → κ) (P : Nat) (m : ASet α) (hle : m.len ≤ m.vals.length) (x y : α) :
     (get_mut key P m x).map (fun r => match r.2 with
       | some i => ({ m with vals := m.vals.set i y }, true)
       | none => (m, false)) = (ASet.update key m (key x) y).toOption := by
   unfold get_mut ASet.update
-  simp only [index_eq]
+  simp only [index_eq key P m hle]
   cases hi : ASet.index key m (key x) with
   | error e => rfl
   | ok r => cases r <;> rfl
 
-theorem insert_eq (key : α → κ) (P : Nat) (m : ASet α) (x : α) :
+theorem insert_eq (key : α → κ) (P : Nat) (m : ASet α) (hle : m.len ≤ m.vals.length) (x : α) :
     insert key P m x = (ASet.insert key P m x).toOption := by
   unfold insert ASet.insert
-  simp only [index_eq, is_full_eq, len_eq]
+  simp only [index_eq key P m hle, is_full_eq key P m hle, len_eq key P m hle]
   by_cases hf : m.isFull P = true
   · simp only [hf, if_true]; rfl
   · simp only [hf, if_false]
@@ -209,10 +216,10 @@ theorem insert_eq (key : α → κ) (P : Nat) (m : ASet α) (x : α) :
           · simp only [hlt, not_true_eq_false, if_false, if_true]; rfl
           · simp only [hlt, not_false_eq_true, if_true, if_false]; rfl
 
-theorem take_eq (key : α → κ) (P : Nat) (m : ASet α) (x : α) :
+theorem take_eq (key : α → κ) (P : Nat) (m : ASet α) (hle : m.len ≤ m.vals.length) (x : α) :
     take key P m x = (ASet.take key m (key x)).toOption := by
   unfold take ASet.take
-  simp only [index_eq, is_empty_eq, len_eq, ASet.isEmpty, beq_iff_eq]
+  simp only [index_eq key P m hle, is_empty_eq key P m hle, len_eq key P m hle, ASet.isEmpty, beq_iff_eq]
   by_cases h0 : m.len = 0
   · simp only [h0, if_true]; rfl
   · simp only [h0, if_false]
@@ -232,10 +239,10 @@ theorem take_eq (key : α → κ) (P : Nat) (m : ASet α) (x : α) :
             cases hc : ASet.copyWithin m.vals (i + 1) i (m.len - i - 1) <;> rfl
           · simp only [hlt, if_false]; rfl
 
-theorem remove_eq (key : α → κ) (P : Nat) (m : ASet α) (x : α) :
+theorem remove_eq (key : α → κ) (P : Nat) (m : ASet α) (hle : m.len ≤ m.vals.length) (x : α) :
     remove key P m x = ((ASet.take key m (key x)).toOption).map (fun r => (r.1, r.2.isSome)) := by
   unfold remove
-  simp only [take_eq]
+  simp only [take_eq key P m hle]
   cases ASet.take key m (key x) <;> rfl
 
 end GenA
